@@ -2,6 +2,9 @@ module verifharness
 
 go 1.14
 
-require github.com/henrylee2cn/erpc/v6 v6.0.0
+require (
+	github.com/henrylee2cn/erpc/v6 v6.0.0
+	github.com/henrylee2cn/goutil v0.0.0-20200416032639-974f5b4094a2
+)
 
 replace github.com/henrylee2cn/erpc/v6 => /repo
